@@ -87,6 +87,23 @@ def call(f, a):
     r = f(*a)
     return np.array(a[2] if r is None else r)
 
+def fixed_op_cache_key():
+    """second one-line switch of Caches.v (false = OperatorTemplate.cache keyed by name, true = proposed_fix_C13_op_cache_key.diff)"""
+    txt = open(os.path.join(COQ, "theories", "Caches.v")).read()
+    return re.search(r"Definition fixed_op_cache_key : bool := (true|false)\.", txt).group(1) == "true"
+
+def fixed_yaml_copy():
+    """third one-line switch of Caches.v (true = proposed_fix_C13_D28.diff: from_yaml hands out copies of loaded circuits)"""
+    txt = open(os.path.join(COQ, "theories", "Caches.v")).read()
+    return re.search(r"Definition fixed_yaml_copy : bool := (true|false)\.", txt).group(1) == "true"
+
+def vec_models():
+    """with the structural operator-cache key M7 has two structural classes: outside the model's domain when vectorizing"""
+    return [m for m in MODELS if not (m == "M7" and fixed_op_cache_key())]
+
+def pick(rng, vec):
+    return rng.choice(vec_models() if vec else MODELS)
+
 def deco(f, factor=1):
     """user decorator of the decorator=/decorator_kwargs= stream: scales the vector field"""
     def scaled(*a):
@@ -210,8 +227,10 @@ def gen_case(rng, maxlen=10):
     for _ in range(n):
         r = rng.random()
         if r < 0.5:
-            hist.append([rng.choice(["compile", "compile", "run", "jac"]), rng.choice(MODELS), rng.random() < 0.5,
-                         rng.random() < pclear, rng.random() < 0.4]); nh += 1
+            m, v = rng.choice(MODELS), rng.random() < 0.5
+            if v and m not in vec_models():
+                v = False
+            hist.append([rng.choice(["compile", "compile", "run", "jac"]), m, v, rng.random() < pclear, rng.random() < 0.4]); nh += 1
         elif r < 0.6:
             hist.append(["yload", None, False, rng.random() < pclear, False]); nh += 1
         elif r < 0.66:
@@ -226,7 +245,8 @@ def gen_case(rng, maxlen=10):
     if rng.random() < (0.6 if touched_yaml else 0.1):
         final = ["yload", None, False, False, False]
     else:
-        final = ["compile", rng.choice(MODELS), rng.random() < 0.5, False, False]
+        m, v = rng.choice(MODELS), rng.random() < 0.5
+        final = ["compile", m, v and m in vec_models(), False, False]
     return dict(hist=hist, final=final)
 
 def is_ops(case):
@@ -242,9 +262,11 @@ def gen_inputs_case(rng):
     for _ in range(rng.randint(1, 5)):
         r = rng.random()
         if r < 0.45:
-            hist.append(["cin", rng.choice(MODELS), rng.random() < 0.5, rng.random() < 0.35, rng.random() < 0.3, rng.choice(["1", "3"])]); nh += 1
+            m, v = rng.choice(MODELS), rng.random() < 0.5
+            hist.append(["cin", m, v and m in vec_models(), rng.random() < 0.35, rng.random() < 0.3, rng.choice(["1", "3"])]); nh += 1
         elif r < 0.55:
-            hist.append(["compile", rng.choice(MODELS), rng.random() < 0.5, rng.random() < 0.35, False]); nh += 1
+            m, v = rng.choice(MODELS), rng.random() < 0.5
+            hist.append(["compile", m, v and m in vec_models(), rng.random() < 0.35, False]); nh += 1
         elif r < 0.8:
             hist.append(["cfc"] + rng.choice([[True, False], [False, True], [False, True], [True, True]]))
         elif r < 0.9:
@@ -328,7 +350,7 @@ def ops_directed():
             dict(hist=[C("H1"), C("H2")], final=C("H1", False, False)), dict(hist=[C("H1")], final=C("H3", False, False))]
 
 def all_finals():
-    return [["compile", m, v, False, False] for m in MODELS for v in (False, True)] + [["yload", None, False, False, False]]
+    return [["compile", m, v, False, False] for m in MODELS for v in (False, True) if not v or m in vec_models()] + [["yload", None, False, False, False]]
 
 def overlap(case):
     """non-triviality: an earlier compilation shares the file name (always 'm') and a node label / operator name / structural
@@ -508,7 +530,7 @@ def check(ctx):
              f"(of which inside the guard: {len([i for i in ev['leak'] if i not in gv])}); impl-vs-Impl mismatches {len(ev['badI'])} "
              f"(inside the guard: {len([i for i in ev['badI'] if i not in gv])}); harness/worker errors {len(ev['crashed'])}; "
              f"of the histories {sum(1 for c in cases if is_ops(c))} are the ops= stream (user helper functions; real code vs fresh interpreter only), "
-             f"{sum(1 for c in cases if is_fortran(c))} contain Fortran compilations; model switch fixed_clear={fixed_clear()}")
+             f"{sum(1 for c in cases if is_fortran(c))} contain Fortran compilations; model switches fixed_clear={fixed_clear()} fixed_op_cache_key={fixed_op_cache_key()} fixed_yaml_copy={fixed_yaml_copy()}")
     def show(c):
         e = evaluate(ctx, [c], "show")
         o = e["outs"][0]
@@ -556,7 +578,7 @@ def check(ctx):
                         "function text, different helper definitions) and compilations with one decorator and different decorator_kwargs; plus an inputs= "
                         "stream (extrinsic input on a same-named variable, one-flag clear_frontend_caches calls; guard from the model's counters); non-trivial = the history contains >= 1 earlier compilation (it shares the file name and the node label `A`, mostly also "
                         "the operator name or the structural class, with the final model); distinct = distinct canonical JSON",
-                   samples=[c for c in cases if overlap(c)][:3], extra=dict(fixed_clear=fixed_clear(), input_distribution=dict(hist, ops_stream=sum(1 for c in cases if is_ops(c)), inputs_stream=sum(1 for c in cases if is_inputs(c)),
+                   samples=[c for c in cases if overlap(c)][:3], extra=dict(fixed_clear=fixed_clear(), fixed_op_cache_key=fixed_op_cache_key(), fixed_yaml_copy=fixed_yaml_copy(), input_distribution=dict(hist, ops_stream=sum(1 for c in cases if is_ops(c)), inputs_stream=sum(1 for c in cases if is_inputs(c)),
                                                            inputs_unmodelled=len(ev["unmodelled"]),
                                                            fortran_stream=sum(1 for c in cases if is_fortran(c))),
                             impl_vs_model_mismatches=len(ev["badI"]), result_differs_from_fresh=len(ev["leak"])),
